@@ -50,7 +50,7 @@ impl LuaEngine {
                             error_content = error_content.trim_start_matches(|c: char| !c.is_alphabetic());
                             let end_pos = error_content.find('\n').unwrap_or(error_content.len());
                             let clean_error = error_content[..end_pos].trim().to_string();
-                            let final_error = if clean_error.starts_with("ERR ") { 
+                            let final_error = if has_error_code(&clean_error) { 
                                 clean_error 
                             } else { 
                                 format!("ERR {}", clean_error) 
@@ -271,9 +271,19 @@ impl LuaEngine {
                 let lua_adapter = LuaCommandAdapter::new(storage.clone());
                 match lua_adapter.execute_lua_command(args, db_index) {
                     Ok(resp_frame) => Self::resp_frame_to_lua_value(lua_ctx, resp_frame, is_pcall),
-                    Err(e) => Self::handle_command_error_with_context(lua_ctx, e.to_string(), is_pcall),
+                    Err(e) => Self::handle_command_error_with_context(lua_ctx, Self::command_error_message(&e), is_pcall),
                 }
             }
+        }
+    }
+    
+    /// The message of a command failure, as the client gets it when the command is sent directly
+    fn command_error_message(e: &FerrousError) -> String {
+        match e {
+            FerrousError::Storage(crate::error::StorageError::WrongType) => {
+                "WRONGTYPE Operation against a key holding the wrong kind of value".to_string()
+            }
+            _ => e.to_string(),
         }
     }
     
@@ -320,7 +330,8 @@ impl LuaEngine {
     
     /// Handle command errors with proper Redis semantics
     fn handle_command_error_with_context(_lua_ctx: &Lua, error_msg: String, is_pcall: bool) -> LuaResult<LuaValue> {
-        let formatted_error = if error_msg.starts_with("ERR ") {
+        // The command's own error code (WRONGTYPE, NOGROUP ...) is kept
+        let formatted_error = if has_error_code(&error_msg) {
             error_msg
         } else {
             format!("ERR {}", error_msg)
@@ -409,6 +420,13 @@ impl LuaEngine {
         hasher.update(script.as_bytes());
         hex::encode(hasher.finalize())
     }
+}
+
+/// Whether an error message already starts with an error code (ERR, WRONGTYPE, NOGROUP ...),
+/// the upper-case first word of every Redis error reply
+pub fn has_error_code(msg: &str) -> bool {
+    msg.split(' ').next()
+        .map_or(false, |w| w.len() > 1 && w.chars().all(|c| c.is_ascii_uppercase()))
 }
 
 /// Global singleton Lua engine - initialized once per process
